@@ -115,7 +115,9 @@ def scan_loop_rules(R, oid):
     ign = [t for t in pr.cfg.nodes if t.kind == 'test' and ast.unparse(t.ast) == 'ignore_critical']
     inst = PARSE + ' :: unknown critical element raises DecodeError, non-critical is skipped'
     probs = []
-    if len(found_t) != 1 or len(crit) != 1 or len(ign) != 1:
+    if len(found_t) == 0 and len(crit) == 1 and len(ign) == 1:
+        R.defer(f'TlvModel.parse: the found / not-found test of the field search was not recognised ({oid} undecided)')
+    elif len(found_t) != 1 or len(crit) != 1 or len(ign) != 1:
         probs.append((f'critical-bit rule not found ({len(found_t)} found-tests, {len(crit)} odd-type tests, {len(ign)} ignore_critical tests)', pr.f.node))
     else:
         rs = [n for n in pr.cfg.nodes if n.kind == 'raise' and n.ast.exc is not None and P.exc_name(pr.f.mod, n.ast.exc) == TM + '.DecodeError']
